@@ -90,3 +90,11 @@ def tonp(a):
     if hasattr(a, "detach"):
         a = a.detach().cpu().numpy()
     return np.asarray(a)
+
+
+def exc_site(e):
+    """'file.py:function' of the innermost aspire frame of an exception (or '?')."""
+    import traceback
+
+    tb = traceback.extract_tb(e.__traceback__)
+    return next((f"{t.filename.split('/')[-1]}:{t.name}" for t in reversed(tb) if "/aspire/" in t.filename), "?")
